@@ -17,7 +17,7 @@ PROPS = {
     'C05': dict(mc=[('MC_Pool', None), ('MC_Math', ['share', 'first'])], math=['share'], world=['random', 'matrix']),
     'C06': dict(mc=[('MC_Pool', None), ('MC_Math', ['swap'])], math=['swap'], world=['random']),
     'C07': dict(mc=[('MC_Pool', None)], world=['random', 'matrix']),
-    'C08': dict(mc=[], math=['arith'], level='exploration'),
+    'C08': dict(mc=[('MC_BigNat', None)], math=['arith'], level='exploration'),
     'C09': dict(mc=[('MC_Pool', None)], world=['matrix', 'random']),
     'C10': dict(mc=[('MC_Pool', None), ('MC_Math', ['belief', 'spread'])], math=['maxspread'], world=['random']),
     'C11': dict(mc=[('MC_Router', None)], world=['random']),
@@ -27,7 +27,7 @@ PROPS = {
     'C15': dict(mc=[('MC_Pool', None), ('MC_Math', ['slip'])], math=['slip'], world=['random']),
     'C16': dict(mc=[('MC_Factory', None), ('MC_System', None)], world=['registry', 'matrix']),
     'C17': dict(mc=[('MC_Factory', None), ('MC_System', None)], world=['registry']),
-    'C18': dict(mc=[], math=['text'], level='exploration'),
+    'C18': dict(mc=[('MC_BigNat', None)], math=['text'], level='exploration'),
     'C19': dict(mc=[('MC_Factory', None)], world=['registry']),
     'C20': dict(mc=[('MC_Pool', None)], world=['withdraw', 'random']),
 }
@@ -157,6 +157,9 @@ def run_mc(pid, tier, workdir):
                 runs += [('kind=%s well-formed shapes depth 4' % k, mc_pool_cfg(k, tier, full=False, depth=4)) for k in kinds]
         elif module == 'MC_Router':
             runs = [('3 pairs, routes of 1..3 hops', mc_router_cfg(tier))]
+        elif module == 'MC_BigNat':
+            # self-test of the arithmetic oracle itself (its states are test batches, not system states)
+            runs = [('oracle self-test', 'CONSTANT QUICK = %s\nINIT Init\nNEXT Next\nINVARIANT Inv\nCHECK_DEADLOCK FALSE\n' % ('FALSE' if tier == 'thorough' else 'TRUE'))]
         elif module == 'MC_System':
             runs = [('whole deployment from scratch, depth %d' % (8 if tier == 'thorough' else 7), mc_system_cfg(tier))]
         elif module == 'MC_Factory':
@@ -315,8 +318,11 @@ def check(pid, tier, seed):
             'exhaustive': False,
             'checker_cmd': 'bin/check %s --tier %s' % (pid, tier),
         })
-        if mc['states'] == 0:
+        if mc['states'] == 0 or ev['level'] == 'exploration':
+            # exploration-level checks: the only "model" run is the oracle's self-test, not a system state space
             cov.pop('states'); cov.pop('transitions')
+            cov['evaluations'] = n_events
+            cov['oracle_selftest'] = cov.pop('models')
         ev['coverage'] = cov
         ev['assumptions'] = ASSUMPTIONS
         ev['violations'] = len(fresh)
